@@ -5,6 +5,7 @@ import (
 
 	"golang.org/x/tools/go/ssa"
 
+	"gosym/smt"
 	"gosym/term"
 )
 
@@ -186,6 +187,18 @@ func (s *State) pcList() []*term.Term {
 	// reverse for stable order
 	for i, j := 0, len(out)-1; i < j; i, j = i+1, j-1 {
 		out[i], out[j] = out[j], out[i]
+	}
+	return out
+}
+
+func (s *State) pcItems() []smt.PCItem {
+	n := 0
+	if s.pc != nil {
+		n = s.pc.depth + 1
+	}
+	out := make([]smt.PCItem, n)
+	for p := s.pc; p != nil; p = p.parent {
+		out[p.depth] = smt.PCItem{ID: p.id, C: p.c}
 	}
 	return out
 }
